@@ -13,6 +13,7 @@ grid ops (agents are 0..NAGENTS-1; `:` introduces the script of raw random draws
   empties | exists | isempty x y (any ints: Python indexing) | mask | agents | iter | get x y | dump
   geti x (grid[x]) | getl K x1 y1 … (grid[(x1,y1),…]) | gets IX IY (grid[ix, iy]; IX/IY = I<int> or S<start>/<stop>/<step>, _ = None)
   tadj x y (torus_adj) | oob x y (out_of_bounds)
+  foreign a x y   (outside the quantifier: another grid of the same shape places the unplaced agent a, i.e. writes its pos)
   nbhd|inbhd x y MOORE IC R | nbrs|inbrs x y MOORE IC R | nmask x y MOORE IC R | clc|iclc K x1 y1 …
   hnbhd|ihnbhd x y IC R | hnbrs|ihnbrs x y IC R
 net ops (node ids are naturals; a node id ≥ N does not exist)
@@ -114,6 +115,11 @@ def gridLine (g : Grid) (hex : Bool) (nag : Nat) (nc : NCache) (hc : HCache) (ws
     match a.toNat? with
     | some a => if okA a then upd (g.remove a) else bad
     | _ => bad
+  | ["foreign", a, x, y] =>
+    match a.toNat?, x.toInt?, y.toInt? with
+    | some a, some x, some y =>
+      if okA a && inGridB g (x, y) && (g.pos a).isNone then (St.grid (g.foreignPos a (x, y)) hex nag nc hc, "ok") else bad
+    | _, _, _ => bad
   | ["move", a, x, y] =>
     match a.toNat?, x.toInt?, y.toInt? with
     | some a, some x, some y => if okA a then upd (g.move a (x, y)) else bad
